@@ -41,7 +41,9 @@ package massdb_v1
 //@   modifies buf[*]
 //@   ensures in-window: offset + len(buf) <= cache.size ==> err == nil && n == len(buf)
 
+//@ ghost lastFlushOK bool
 //@ func (*MemCache).WriteToWriter
+//@   sets lastFlushOK = err == nil
 //@   requires wf: wfCache(cache)
 //@   requires w != nil && srcStart >= 0 && len >= 0 && srcStart + len <= 281474976710656 && dstStart >= 0 && dstStart + len <= 4611686018427387904
 //@   modifies dirty[unbox("*os.File", w)]
@@ -131,7 +133,7 @@ package massdb_v1
 //@ func (*MassDBV1).prePlotWork
 //@   requires cache != nil && wfMapA(mdb.HashMapA) && mdb.pubKey != nil
 //@   requires clean-at-start: !dirty[mdb.HashMapA.HashMap.data]
-//@   modifies mdb.HashMapA.HashMap.checkpoint, cache.size, cache.data, elems(byte), dirty[mdb.HashMapA.HashMap.data]
+//@   modifies mdb.HashMapA.HashMap.checkpoint, cache.size, cache.data, elems(byte), dirty[mdb.HashMapA.HashMap.data], lastFlushOK
 //@   ensures clean-at-end: err == nil ==> !dirty[mdb.HashMapA.HashMap.data]
 //@   loop startPoint invariant wf-a: hmA == mdb.HashMapA && wfMapA(hmA)
 //@   loop startPoint invariant wf-b: cache != nil
@@ -149,6 +151,7 @@ package massdb_v1
 //@   assert-at call WriteToWriter window-bytes: arg4 == 4096 + startPoint * recordSize && arg5 == cache.size && arg3 == 0 && cache.size >= (endPoint - startPoint) * recordSize
 //@   assert-at call WriteToWriter clean-before-data: !dirty[hmA.HashMap.data]
 //@   assert-at call UpdateCheckpoint#1 checkpoint-not-ahead: hmA.HashMap.checkpoint <= endPoint
+//@   assert-at call UpdateCheckpoint#1 window-was-flushed: lastFlushOK
 //@   assert-at call UpdateCheckpoint#2 final: hmA.HashMap.checkpoint == hmA.HashMap.volume
 //@   ensures complete: err == nil ==> mdb.HashMapA.HashMap.checkpoint == mdb.HashMapA.HashMap.volume
 
@@ -156,7 +159,7 @@ package massdb_v1
 //@   requires cache != nil && wfMapA(mdb.HashMapA) && wfMapB(mdb.HashMapB) && mdb.HashMapA.HashMap.bl == mdb.HashMapB.HashMap.bl && mdb.pubKey != nil
 //@   requires clean-at-start: !dirty[mdb.HashMapB.HashMap.data]
 //@   attr wraps checkpoint*2
-//@   modifies mdb.HashMapB.HashMap.checkpoint, cache.size, cache.data, elems(byte), dirty[mdb.HashMapB.HashMap.data]
+//@   modifies mdb.HashMapB.HashMap.checkpoint, cache.size, cache.data, elems(byte), dirty[mdb.HashMapB.HashMap.data], lastFlushOK, fpos, rpos
 //@   requires distinct-files: mdb.HashMapA.HashMap.data != mdb.HashMapB.HashMap.data
 //@   loop startPoint invariant wf: hmA == mdb.HashMapA && hmB == mdb.HashMapB && wfMapA(hmA) && wfMapB(hmB) && cache != nil && hmA.HashMap.bl == hmB.HashMap.bl && bl == hmA.HashMap.bl && recordSize == hmB.HashMap.recordSize && half == hmB.HashMap.volume / 2 && len(bs) == 2 * recordSize
 //@   loop startPoint invariant window-tiling: startPoint <= half || startPoint == checkpoint
@@ -170,6 +173,8 @@ package massdb_v1
 //@   assert-at call WriteToWriter window-bytes: arg4 == 4096 + startPoint * recordSize * 4 && arg5 == cache.size && arg3 == 0 && cache.size >= (endPoint - startPoint) * recordSize * 4
 //@   assert-at call WriteToWriter clean-before-data: !dirty[hmB.HashMap.data]
 //@   assert-at call UpdateCheckpoint#1 checkpoint-not-ahead: hmB.HashMap.checkpoint <= endPoint
+//@   assert-at call UpdateCheckpoint#1 window-was-flushed: lastFlushOK
+//@   loop y invariant map-A-read-from-its-start: y == 0 ==> rpos[bufRdA] == 4096
 //@   assert-at call UpdateCheckpoint#2 final: hmB.HashMap.checkpoint == half
 //@   ensures complete: err == nil ==> mdb.HashMapB.HashMap.checkpoint == mdb.HashMapB.HashMap.volume / 2
 
